@@ -402,14 +402,14 @@ pub fn scenario(g: &mut G, ctx: &RunCtx) -> RunReport {
                 let st = resp.status().as_u16();
                 Res::Ok(st, resp.bytes().unwrap_or_default())
             }
-            Err(e) => match e.kind() {
-                attohttpc::ErrorKind::ConnectError { status_code, body } => {
-                    // (rendered like every other error)
-                    let _ = err_kind(&e);
-                    Res::ConnectError(status_code.as_u16(), body.clone())
+            Err(e) => {
+                // rendered like every other error, then taken apart the way a caller would who wants the body
+                let k = err_kind(&e);
+                match e.into_kind() {
+                    attohttpc::ErrorKind::ConnectError { status_code, body } => Res::ConnectError(status_code.as_u16(), body),
+                    _ => Res::Err(k),
                 }
-                _ => Res::Err(err_kind(&e)),
-            },
+            }
         }
     });
     let mut stats = Stats::default();
